@@ -229,7 +229,7 @@ def run(ctx):
         if ac:
             qs.append("findall(X-Y, %su(X,Y), L0), sort(L0, L)." % p); qmeta.append(("untabled", "all", None))
         jid = "G%d" % gi
-        jobs.append({"id": jid, "consult": graph_text(p, edges), "queries": qs, "max_answers": 3, "timeout_ms": 5000})
+        jobs.append({"id": jid, "consult": graph_text(p, edges), "queries": qs, "max_answers": 3, "timeout_ms": 20000})
         meta[jid] = (cls, n, edges, qs, qmeta, ac)
 
     # ---------------- reset/shift programs
@@ -249,7 +249,7 @@ def run(ctx):
         for pr, _ in progs[j:j + per_job]:
             qs.append("%srun(%s, Log, R)." % (p, pt.goal(pr)))
         jid = "C%d" % (j // per_job)
-        jobs.append({"id": jid, "consult": cont_prelude(p) + "".join(pt.clauses), "queries": qs, "max_answers": 3, "timeout_ms": 5000})
+        jobs.append({"id": jid, "consult": cont_prelude(p) + "".join(pt.clauses), "queries": qs, "max_answers": 3, "timeout_ms": 20000})
         meta[jid] = ("C", j, qs, cont_prelude(p) + "".join(pt.clauses))
 
     obs = core.vrun_query(ctx.prop, jobs, tag="impl")
@@ -277,7 +277,7 @@ def run(ctx):
             L = binding(r, "L")
             if L is None:
                 failures.append({"key": "tabled-query-did-not-complete" if kq != "untabled" else "untabled-query-did-not-complete",
-                                 "what": "path/2 query over a finite graph raised, timed out (5 s) or failed instead of returning its answer set",
+                                 "what": "path/2 query over a finite graph raised, timed out (20 s) or failed instead of returning its answer set",
                                  "input": graph_text("g%d_" % gi, edges) + "?- " + q, "impl": json.dumps(r)[:400], "spec": "the least fixpoint answer set", "property_fails": True})
                 broken = True
                 break
@@ -384,7 +384,7 @@ def run(ctx):
             "rule": ("graphs: a sample of the 512 graphs on 3 nodes (all of them in the thorough tier) and random graphs on 4-6 nodes (acyclic / cycle with chords / "
                      "arbitrary), each with left-, right- and doubly-recursive tabled path/2 queried open, with the first argument bound (before and after the open "
                      "call, in random order), ground, and untabled on acyclic graphs; sorted answer sets compared in Coq with lfp (3 nodes) or by the certificate "
-                     "checker (larger); a query that raises or exceeds 5 s is a failure. reset/shift: random instruction lists (log, shift, reset under "
+                     "checker (larger); a query that raises or exceeds 20 s is a failure. reset/shift: random instruction lists (log, shift, reset under "
                      "drop/resume/iterator/state handlers, nesting <= 3, bodies inline or as predicates) run with a log of actions, compared with exec. "
                      "evaluations = queries compared + programs compared; non-trivial = distinct (graph with >= 1 edge, kind) + distinct programs containing a shift or reset that agree"),
             "samples": samples, "distribution": dist, "failures": keep, "tie_breaks": tie_breaks}
